@@ -332,3 +332,39 @@ pub fn mutate(src: &str, other: &str, rng: &mut Rng) -> (String, &'static str) {
     };
     (toks.concat(), kind)
 }
+
+/// source text without `//` and `/* */` comments (string literals are respected)
+pub fn strip_comments(src: &str) -> String {
+    let b: Vec<char> = src.chars().collect();
+    let mut out = String::new();
+    let mut i = 0;
+    while i < b.len() {
+        if b[i] == '"' {
+            out.push('"');
+            i += 1;
+            while i < b.len() && b[i] != '"' {
+                out.push(b[i]);
+                i += 1;
+            }
+            if i < b.len() {
+                out.push('"');
+                i += 1;
+            }
+        } else if b[i] == '/' && i + 1 < b.len() && b[i + 1] == '/' {
+            while i < b.len() && b[i] != '\n' {
+                i += 1;
+            }
+        } else if b[i] == '/' && i + 1 < b.len() && b[i + 1] == '*' {
+            i += 2;
+            while i + 1 < b.len() && !(b[i] == '*' && b[i + 1] == '/') {
+                i += 1;
+            }
+            i = (i + 2).min(b.len());
+            out.push(' ');
+        } else {
+            out.push(b[i]);
+            i += 1;
+        }
+    }
+    out
+}
